@@ -186,8 +186,8 @@ class Fold:
         for f in self.heap_fields:
             arr = heap.get(f)
             if arr is None:
-                arr = ctx.field_array(f)
-                heap.setdefault(f, arr)
+                from .contract import initial_array
+                arr = initial_array(it.engine, f)
             harrs.append(arr)
         k = _lift(k, None)
         params = [_lift(p, None) for p in params]
